@@ -172,3 +172,212 @@ Example C01_nonvacuous :
   rev (w_log (snd (exec f7_cfg (libcore f7_cfg) Run.no_url Run.no_lint 400 (fst (compile real_lab None 0 ok_prog)) 0 [] None UHost f7_world)))
     = [U "i=1"; U "two"; U "i=3"].
 Proof. vm_compute. repeat split. Qed.
+
+(* ------------------------------------------------------------------------------------------------------------------------
+   `for` loops (Proofs/C01for.v, Proofs/C01forReal.v).
+
+   FULL STATEMENT (not proved in full): as C01_simulation_partial, for statement trees in which `for` may occur at any nesting
+   depth, over any value of the loop expression.
+
+   PROVED (C01_for_simulation_partial): one `for` loop whose body is any statement tree of the fragment above (if / elif / else,
+   while, break, continue, return, assignment, expression statement; [wf true], [guard]).  [compile_for_real n x idx e body] is
+   the statement list parse_script emits for   for x[, idx] in e: body endfor   with label index n
+   (C01_for_compile_is_the_parser_lowering for bodies without `continue`; with `continue` the check decides it per case inside
+   Coq: Model/RunC01for.v check_lowering_for).  FExec (Proofs/C01for.v) is the structured reading: the loop expression is
+   evaluated once, the length is taken once, iteration i binds x to element i of the array as it is in the heap then, `break`
+   ends the loop, `continue` and normal completion go to the next element (for `for`, continue IS right: its label sits before the
+   increment), return / error end the loop.  Whenever that reading ends, the interpreter run on the lowered code ends with the
+   same result, the same locals and (up to the statement counter) the same world.
+
+   PREMISES: on the library, the two of C01_simulation_library_premises_partial plus the contracts of the two functions the
+   lowering calls (arrayLength, arrayGet), all four PROVED for the modelled library (C01_for_premises_hold_for_modelled_library);
+   [names_okb]: the temporaries are pairwise distinct and none is null / true / false (holds for the reserved names for every n:
+   C01_for_reserved_names_ok; a premise only when the source names its own index variable).
+   DEFINEDNESS side conditions inside the rules of FExec (Proofs/C01for.v): `arrayLength` / `arrayGet` still resolve to the library
+   functions when the loop calls them, the body leaves the three temporaries alone, and element i exists when iteration i starts.
+
+   MISSING, named: in THIS theorem the loop is not nested (for-in-for and statements around loops: C01_nested_for_simulation_partial
+   below; a `for` inside an if branch or a while body: not proved); a loop expression whose value is not an array (the loop is skipped after a failed arrayLength argument check); a body that
+   shrinks the array under the index; the syntactic criterion "the body never assigns a __bareScript name" for the side
+   condition on the temporaries. *)
+From BS Require Import Model.RunC01for Proofs.C01for Proofs.C01forReal.
+
+Theorem C01_for_simulation_partial : forall cfg, c_max cfg = 0%Z ->
+  forall lib url_rel lint_lines, lib_fuel_monotone lib -> lib_count_blind lib ->
+  arrayLength_contract lib -> arrayGet_contract lib ->
+  forall um n x idxo e b,
+  names_okb (lbl L_Values n) (lbl L_Length n) (for_index n idxo) = true -> wf true b = true -> guard b = true ->
+  forall loc w o loc' w',
+  FExec cfg lib url_rel lint_lines um (lbl L_Values n) (lbl L_Length n) (for_index n idxo) x e b (loc, w) o (loc', w') ->
+  forall wm, weq w wm ->
+  exists out wm', scope_result o = Some out /\ weq w' wm' /\
+    Run cfg lib url_rel lint_lines um (fst (compile_for_real n x idxo e b)) 0 loc wm (out, loc', wm').
+Proof. exact for_simulation. Qed.
+Print Assumptions C01_for_simulation_partial.
+
+(* the same at any position of a larger statement list (continuation form, composable with C01's [sim]); here the premise
+   on evaluation is left as in C01_simulation_partial *)
+Theorem C01_for_simulation_in_context_partial : forall cfg, c_max cfg = 0%Z ->
+  forall lib url_rel lint_lines, lib_fuel_monotone lib ->
+  forall um lab labc,
+  (forall e loc w o w' wm, Ev cfg lib url_rel lint_lines um e loc w o w' -> weq w wm ->
+     exists wm', Ev cfg lib url_rel lint_lines um e loc wm o wm' /\ weq w' wm') ->
+  arrayLength_contract lib -> arrayGet_contract lib ->
+  forall vals len idx x e b, names_okb vals len idx = true -> wf true b = true -> guard b = true ->
+  forall st o st', FExec cfg lib url_rel lint_lines um vals len idx x e b st o st' ->
+  forall code cpos n pc wm, NoDup (labels code) -> code_at code pc (fst (compile_for lab labc vals len idx x e b n)) -> weq (snd st) wm ->
+  exists wm', weq (snd st') wm' /\
+    post cfg lib url_rel lint_lines um code cpos (pc + length (fst (compile_for lab labc vals len idx x e b n))) o (fst st') wm' pc (fst st) wm.
+Proof. exact for_sim. Qed.
+Print Assumptions C01_for_simulation_in_context_partial.
+
+(* all four library premises hold for the modelled library functions (non-vacuity) *)
+Theorem C01_for_premises_hold_for_modelled_library : forall cfg,
+  lib_fuel_monotone (libcore cfg) /\ lib_count_blind (libcore cfg) /\ arrayLength_contract (libcore cfg) /\ arrayGet_contract (libcore cfg).
+Proof.
+  intros cfg. split; [exact (libcore_fuel_monotone cfg)|split; [exact (libcore_count_blind cfg)|split; [exact (libcore_arrayLength cfg)|exact (libcore_arrayGet cfg)]]].
+Qed.
+Print Assumptions C01_for_premises_hold_for_modelled_library.
+
+Theorem C01_for_reserved_names_ok : forall n, names_okb (lbl L_Values n) (lbl L_Length n) (for_index n None) = true.
+Proof. exact reserved_names_ok. Qed.
+Print Assumptions C01_for_reserved_names_ok.
+
+(* the labels the lowered loop defines are defined once *)
+Theorem C01_for_compiled_labels_unique : forall n x idxo e b, NoDup (labels (fst (compile_for_real n x idxo e b))).
+Proof. intros n x idxo e b. exact (compile_for_NoDup real_lab real_labc _ _ _ x e b real_lab_inj' real_labc_fresh n). Qed.
+Print Assumptions C01_for_compiled_labels_unique.
+
+(* [compile_for_real] IS the parser's lowering of  for .. endfor  (bodies without `continue`, the fragment of Proofs/C01c.v):
+   folding the parser's pure lowering step over the line kinds of the loop appends exactly compile_for_real and restores the
+   frame stack, from any parser state of the global scope *)
+Theorem C01_for_compile_is_the_parser_lowering : forall ann i code depth fr n x idxo e b,
+  idxo <> Some [] -> wf true b = true -> no_continue b = true ->
+  kfold ann i (gstate code depth fr n) (for_kinds x idxo e b) =
+  ROk (gstate (code ++ fst (compile_for_real n x idxo e b)) depth fr (snd (compile_for_real n x idxo e b))).
+Proof. exact for_lowering_is_compile_for. Qed.
+Print Assumptions C01_for_compile_is_the_parser_lowering.
+
+(* the structured reading of a for loop is executable: a sound interpreter for FExec *)
+Theorem C01_for_structured_interpreter_sound : forall cfg lib url_rel lint_lines um vals len idx x e b fuel st o st',
+  fexec cfg lib url_rel lint_lines um vals len idx x e b fuel st = Some (o, st') ->
+  FExec cfg lib url_rel lint_lines um vals len idx x e b st o st'.
+Proof. exact fexec_sound. Qed.
+Print Assumptions C01_for_structured_interpreter_sound.
+
+(* non-vacuity: a for loop over a 3-element array, with an index variable and a `continue`:
+       for v, i in arr: / if v == 20: / continue / endif / systemLog('v=' + v + ' i=' + i) / endfor
+   all hypotheses of C01_for_simulation_partial hold, the structured reading (hence FExec, by C01_for_structured_interpreter_sound)
+   ends normally with log v=10 i=0, v=30 i=2, the parser model lowers the text to compile_for_real, and the interpreter on the
+   lowered code gives the same log *)
+Definition for_text : str := U "for v, i in arr:
+    if v == 20:
+        continue
+    endif
+    systemLog('v=' + v + ' i=' + i)
+endfor
+".
+Definition for_body : sstmt :=
+  TSeq (TIf (EBin (U "==") (EVar (U "v")) (ENum (NFlt (Z_to_sf 20)))) TContinue TSkip)
+       (TExpr (ECall (U "systemLog") [EBin (U "+") (EBin (U "+") (EBin (U "+") (EStr (U "v=")) (EVar (U "v"))) (EStr (U " i="))) (EVar (U "i"))])).
+Definition for_world : world :=
+  upd_arrs (world0 (inject_library [(U "arr", VArr 0)])) [[VNum (NInt 10); VNum (NInt 20); VNum (NInt 30)]].
+
+Example C01_for_nonvacuous :
+  names_okb (lbl L_Values 0) (lbl L_Length 0) (for_index 0 (Some (U "i"))) = true /\ wf true for_body = true /\ guard for_body = true /\
+  has_cont for_body = true /\
+  check_lowering_for for_text (U "v") (Some (U "i")) (EVar (U "arr")) for_body = true /\
+  option_map (fun r => (fst r, rev (w_log (snd (snd r)))))
+    (fexec f7_cfg (libcore f7_cfg) Run.no_url Run.no_lint UHost (lbl L_Values 0) (lbl L_Length 0) (for_index 0 (Some (U "i"))) (U "v")
+           (EVar (U "arr")) for_body 200 (None, for_world))
+    = Some (SNormal, [U "v=10 i=0"; U "v=30 i=2"]) /\
+  rev (w_log (snd (exec f7_cfg (libcore f7_cfg) Run.no_url Run.no_lint 400
+                        (fst (compile_for_real 0 (U "v") (Some (U "i")) (EVar (U "arr")) for_body)) 0 [] None UHost for_world)))
+    = [U "v=10 i=0"; U "v=30 i=2"].
+Proof. vm_compute. repeat split. Qed.
+
+(* ------------------------------------------------------------------------------------------------------------------------
+   NESTED for loops (Proofs/C01forN.v).  Source trees [ustmt]: statement trees of the fragment above, sequencing, and
+   for loops whose body is again such a tree - for-in-for to any depth, statements before / after / between loops, `break` /
+   `continue` (outside any while) binding to the innermost enclosing for.  [annotate] gives every loop the names the parser gives
+   its three temporaries (label counter in source order); [compile_u] is the lowering; GExec is the structured reading (the rules
+   of FExec with the body an annotated tree; same definedness side conditions, per loop).
+
+   STILL MISSING, named: a `for` INSIDE an if branch or inside a while body (that needs `for` inside the statement trees of
+   Proofs/C01.v themselves); non-array loop values; array-shrinking bodies; [compile_u] = the parser's lowering is decided per
+   case inside Coq by the check (Model/RunC01for.v check_lowering_u), proved only for a single loop without `continue`
+   (C01_for_compile_is_the_parser_lowering). *)
+From BS Require Import Proofs.C01forN.
+
+Theorem C01_nested_for_simulation_partial : forall cfg, c_max cfg = 0%Z ->
+  forall lib url_rel lint_lines, lib_fuel_monotone lib -> lib_count_blind lib ->
+  arrayLength_contract lib -> arrayGet_contract lib ->
+  forall um n u loc w o loc' w',
+  GExec cfg lib url_rel lint_lines um (fst (annotate n u)) (loc, w) o (loc', w') ->
+  gwf false (fst (annotate n u)) = true -> gguard (fst (annotate n u)) = true ->
+  forall wm, weq w wm ->
+  exists out wm', scope_result o = Some out /\ weq w' wm' /\
+    Run cfg lib url_rel lint_lines um (compile_u n u) 0 loc wm (out, loc', wm').
+Proof. exact nested_for_simulation. Qed.
+Print Assumptions C01_nested_for_simulation_partial.
+
+(* all labels of the lowered code are defined once *)
+Theorem C01_nested_for_compiled_labels_unique : forall ctx n f, NoDup (labels (fst (gcompile real_lab real_labc ctx n f))).
+Proof. intros ctx n f. exact (gcompile_NoDup real_lab real_labc real_lab_inj' real_labc_inj real_labc_fresh ctx n f). Qed.
+Print Assumptions C01_nested_for_compiled_labels_unique.
+
+(* the single loop of C01_for_simulation_partial is the special case FFor .. (FS body): same code, and its reading is a GExec *)
+Theorem C01_nested_for_extends_single : forall cfg lib url_rel lint_lines um lab labc vals len idx x e b,
+  (forall ctx n, gcompile lab labc ctx n (FFor vals len idx x e (FS b)) = compile_for lab labc vals len idx x e b n) /\
+  (forall st o st', FExec cfg lib url_rel lint_lines um vals len idx x e b st o st' ->
+                    GExec cfg lib url_rel lint_lines um (FFor vals len idx x e (FS b)) st o st').
+Proof.
+  intros cfg lib url_rel lint_lines um lab labc vals len idx x e b.
+  split; [intros ctx n; exact (gcompile_single lab labc vals len idx x e b n ctx)|exact (FExec_GExec cfg lib url_rel lint_lines um vals len idx x e b)].
+Qed.
+Print Assumptions C01_nested_for_extends_single.
+
+Theorem C01_nested_for_structured_interpreter_sound : forall cfg lib url_rel lint_lines um fuel f st o st',
+  gexec cfg lib url_rel lint_lines um fuel f st = Some (o, st') -> GExec cfg lib url_rel lint_lines um f st o st'.
+Proof. exact gexec_sound. Qed.
+Print Assumptions C01_nested_for_structured_interpreter_sound.
+
+(* non-vacuity: for-in-for with continue and break of the inner loop, statements after the inner loop and after the outer loop *)
+Definition nest_text : str := U "for a in outer:
+    for b, j in inner:
+        if b == 2:
+            continue
+        endif
+        if a == 20:
+            break
+        endif
+        systemLog('a=' + a + ' b=' + b + ' j=' + j)
+    endfor
+    systemLog('end ' + a)
+endfor
+return 'done'
+".
+Definition nest_prog : ustmt :=
+  USeq (UFor (U "a") None (EVar (U "outer"))
+         (USeq (UFor (U "b") (Some (U "j")) (EVar (U "inner"))
+                  (US (TSeq (TIf (EBin (U "==") (EVar (U "b")) (ENum (NFlt (Z_to_sf 2)))) TContinue TSkip)
+                      (TSeq (TIf (EBin (U "==") (EVar (U "a")) (ENum (NFlt (Z_to_sf 20)))) TBreak TSkip)
+                            (TExpr (ECall (U "systemLog")
+                               [EBin (U "+") (EBin (U "+") (EBin (U "+") (EBin (U "+") (EBin (U "+") (EStr (U "a=")) (EVar (U "a"))) (EStr (U " b=")))
+                                     (EVar (U "b"))) (EStr (U " j="))) (EVar (U "j"))]))))))
+               (US (TExpr (ECall (U "systemLog") [EBin (U "+") (EStr (U "end ")) (EVar (U "a"))])))))
+       (US (TReturn (Some (EStr (U "done"))))).
+Definition nest_world : world :=
+  upd_arrs (world0 (inject_library [(U "outer", VArr 0); (U "inner", VArr 1)]))
+           [[VNum (NInt 10); VNum (NInt 20)]; [VNum (NInt 1); VNum (NInt 2); VNum (NInt 3)]].
+Definition nest_log : list str := [U "a=10 b=1 j=0"; U "a=10 b=3 j=2"; U "end 10"; U "end 20"].
+
+Example C01_nested_for_nonvacuous :
+  gwf false (fst (annotate 0 nest_prog)) = true /\ gguard (fst (annotate 0 nest_prog)) = true /\
+  check_lowering_u nest_text nest_prog = true /\
+  option_map (fun r => (fst r, rev (w_log (snd (snd r)))))
+    (gexec f7_cfg (libcore f7_cfg) Run.no_url Run.no_lint UHost 300 (fst (annotate 0 nest_prog)) (None, nest_world))
+    = Some (SStop (OVal (VStr (U "done"))), nest_log) /\
+  (let r := exec f7_cfg (libcore f7_cfg) Run.no_url Run.no_lint 600 (compile_u 0 nest_prog) 0 [] None UHost nest_world in
+   (fst (fst r), rev (w_log (snd r)))) = (OVal (VStr (U "done")), nest_log).
+Proof. vm_compute. repeat split. Qed.
